@@ -77,7 +77,7 @@ class C22(LLCheck):
                     cases.append(mk("supervision", v, ops))
                 cases.append(mk("attempt", v, ["run", connect_ind(sca=sca, interval=rng.choice([6, 24, 800]), timeout=rng.choice([100, 3200]))] + ["timeout"] * 7 + ["st"]))
             # 3. missed-event patterns and latency (event flags decide whether events are skipped)
-            per = 30 if not ctx.thorough else 600
+            per = 80 if not ctx.thorough else 600
             for k in range(per):
                 iv, la = rng.choice([(6, 0), (24, 0), (24, 3), (80, 10), (800, 2), (8, 100), (6, 499)])
                 to = min(3200, max((la + 1) * 2 * iv * 1250 // 10000 + 1, rng.choice([100, 600, 3200])))
@@ -86,7 +86,7 @@ class C22(LLCheck):
                     ops.append(rng.choice(["ev 0", "ev 0", "ev 0", "ev 2", "ev 16", "ev 32", "ev 8", "timeout", "timeout", "ev 0 3:12", "ev 63"]))
                 cases.append(mk("pattern", v, ops + ["st"]))
             # 4. connection updates: the transmit window after the instant, then the new interval / timeout
-            for k in range(20 if not ctx.thorough else 300):
+            for k in range(60 if not ctx.thorough else 300):
                 ops = connected(rng, interval=rng.choice([6, 24, 80]), latency=rng.choice([0, 0, 2]), timeout=rng.choice([300, 3200]), sca=rng.randrange(8))
                 evc = 1
                 ops += ["ev 0"] * rng.randrange(0, 3)
@@ -100,7 +100,7 @@ class C22(LLCheck):
                 ops += ["timeout"] * rng.choice([0, 3, 40]) + ["st"]
                 cases.append(mk("update", v, ops))
             # 5. random sessions
-            for k in range(20 if not ctx.thorough else 500):
+            for k in range(60 if not ctx.thorough else 500):
                 cases.append(mk("rnd", v, session(rng, v, rng.choice([15, 40]), instants=True)))
         return cases
 
